@@ -264,8 +264,34 @@ func (f *c55File) ToNode(ignoreXattrListError bool, warnf func(format string, ar
 	return node, err
 }
 
+// c55All lists the items of a tree in preorder.
+func c55All(it *c55Item, out *[]*c55Item) {
+	*out = append(*out, it)
+	for _, c := range it.children {
+		c55All(c, out)
+	}
+}
+
+// c55Inject draws faults: p = 1 gives the item itself a fault for sure (single-fault trees make
+// the exit status depend on that one fault), otherwise every item gets one with probability 1/p.
 func (h *H) c55Inject(it *c55Item, top bool) {
-	p := 4
+	h.c55InjectP(it, top, 4)
+}
+
+func (h *H) c55InjectOne(root *c55Item) {
+	var all []*c55Item
+	c55All(root, &all)
+	it := all[h.Intn(len(all))]
+	if it == root && h.Intn(4) != 0 && len(all) > 1 {
+		it = all[1+h.Intn(len(all)-1)]
+	}
+	saved := it.children
+	it.children = nil
+	h.c55InjectP(it, false, 1)
+	it.children = saved
+}
+
+func (h *H) c55InjectP(it *c55Item, top bool, p int) {
 	if top {
 		p = 30
 	}
@@ -534,7 +560,11 @@ func (h *H) c55PermCase(self, repo string) {
 func (h *H) c55InjectCase() {
 	budget := 3 + h.Intn(14)
 	root := h.c55Gen(0, &budget, "src")
-	h.c55Inject(root, true)
+	if h.Bool() {
+		h.c55InjectOne(root)
+	} else {
+		h.c55Inject(root, true)
+	}
 	work := MkTemp("c55-")
 	defer c55MakeRemovable(work)
 	src := filepath.Join(work, "src")
